@@ -22,6 +22,7 @@ Fingerprints name the root cause, not the case: a failing case is re-tried on th
 family (simplest envelope of the network, one-entry message, smallest sub-deviation of the version
 message) and only carries its own bounds in the fingerprint when the simplest input passes.
 """
+import hashlib
 import io
 import itertools
 
@@ -84,10 +85,11 @@ _pat = {}
 
 
 def pattern(seed, label, n):
-    """n deterministic bytes (prefix-stable per (seed, label)); never all-equal so reversals show"""
+    """n deterministic bytes, prefix-stable per (seed, label): a 32-byte core.filler value expanded with SHAKE-256
+    (core.filler itself is quadratic in n); never all-equal, so reversals and shifts show"""
     key = (seed, label)
     if key not in _pat or len(_pat[key]) < n:
-        _pat[key] = filler(seed, "c19-" + label, 0, max(n, 4096))
+        _pat[key] = hashlib.shake_256(filler(seed, "c19-" + label, 0, 32)).digest(max(n, 1 << 17))
     return _pat[key][:n]
 
 
